@@ -77,7 +77,8 @@ def build_variant(o, pose, num, rng, p=0.2):
 
 
 def num_for(rng, pose, objs):
-    return rng.choice(("float", "float", "int"))
+    """numeric type of the coordinates: float, int where integral, and Fraction (exact rationals are rationals)"""
+    return rng.choice(("float", "float", "float", "int", "int", "frac"))
 
 
 def mismatch(clause, sig, detail, expected, observed, pose, objs):
